@@ -363,7 +363,16 @@ class Quaternion(SMUserList):
         """
         norm = self.norm()
         s = math.log(norm)
-        v = math.acos(self.s / norm) * base.unitvec(self.v)
+        norm_v = base.norm(self.v)
+        if norm_v == 0:
+            if self.s < 0:
+                raise ValueError('logarithm of a negative real quaternion is not unique')
+            # positive real quaternion: the rotation angle is zero
+            v = np.zeros((3,))
+        else:
+            # the angle between the scalar axis and q: atan2 keeps full
+            # precision where acos(s / |q|) loses it (|v| << |s|)
+            v = math.atan2(norm_v, self.s) * self.v / norm_v
         return Quaternion(s=s, v=v)
 
     def exp(self):
